@@ -4,7 +4,7 @@ import core
 RULE = ("case = a seeded history of 1-3 injector lifetimes x 4-23 operations over a family of 15 async functions (free functions and a "
         "method; by-value and by-reference parameters; outputs (), u32 x3 siblings, bool, u8, f64, String, [u64;32], Result<Vec<u8>,String>, Option<Box<u64>> (niche layout, None and Some), (u64,String), a 96-byte struct owning a Vec whose constructions and drops are counted; one "
         "function that yields once so the original needs two polls): fake (fresh-value / constant / unchecked variants), re-fake, await "
-        "directly, await from inside a parent async block, await on 4 executor threads while the injector lives on the main thread, drop, "
+        "directly, await from inside a parent async block, await on 4 executor threads while the injector lives on the main thread, scope exit by drop / by a panic unwinding through the owner / by a failing call-count verification of an unrelated counted fake, "
         "new lifetime. A hand-written executor polls once per step and records Pending/Ready; every original body bumps a counter; "
         "value expressions draw from a counter. Oracle (reference model fn -> current source): a faked await is Ready on its first poll, "
         "the body counter does not move, the value is a fresh evaluation (never seen before / increasing) or the constant; an un-faked "
